@@ -8,17 +8,39 @@ ROOT = os.path.dirname(os.path.dirname(os.path.abspath(__file__)))
 TB = ("Trusted base: TLC 1.8.0 evaluating the TLA+ modules under /verif/spec; the harness projection "
       "of the real objects through their public API (harness/binding.py); CPython/numpy of /venv.")
 
+TECH = "TLA+ spec + TLC exhaustive exploration; spec->code replay of TLC behaviours; code->spec trace validation by TLC"
+NOTE = TB + " Weights are positive integers, metadata over keys a,b; corners of DESIGN.md section 5 not executed."
+
+
+def container(kind_text, ref, extra=""):
+    return dict(
+        level="model_checking", ref=ref,
+        text=("Abstract container model HGX.tla (%s) explored exhaustively by TLC over 2-3 nodes (invariants + step "
+              "assertions); TLC-generated behaviours (simulate + all histories of bounded length) and biased harness "
+              "histories are replayed through the public API of real objects under several label maps and listing "
+              "orders, and every logged event (state projection + queries) is re-executed by TLC against Trace_HGX. "
+              "%sExhaustive only for the small universes; larger ones are sampled." % (kind_text, extra)),
+        note=NOTE, technique=TECH)
+
+
 CHECKS = {
-    "C01": dict(
-        level="model_checking", ref="3 C01",
-        text=("Abstract container model HGX.tla (Kind=hg) explored exhaustively by TLC over 2-3 nodes "
-              "(invariants + step assertions); TLC-generated behaviours (simulate + all histories of bounded "
-              "length) and biased harness histories are replayed through the public API of real Hypergraph "
-              "objects under several label maps and listing orders, and every logged event (state projection + "
-              "every query for every order/size filter) is re-executed by TLC against Trace_HGX. Exhaustive only "
-              "for the small universes; larger ones are sampled."),
-        note=TB + " Weights are positive integers, metadata over keys a,b; corners of DESIGN.md section 5 not executed.",
-        technique="TLA+ spec + TLC exhaustive exploration; spec->code replay of TLC behaviours; code->spec trace validation by TLC"),
+    "C01": container("Kind=hg", "3 C01", "Every query for every order/size filter is compared after every call. "),
+    "C02": container("Kind=dir", "3 C02", "Source/target listings, in/out degrees and neighbours compared after every call. "),
+    "C03": container("Kind=temp", "3 C03", "Time windows, snapshots and aggregate(w) for all windows/widths are derived "
+                     "objects compared with the operators of Derive.tla (WindowPartition, SnapshotUnion, HalfOpen checked "
+                     "by TLC on the design). "),
+    "C04": container("Kind=mux", "3 C04", "aggregated_hypergraph and edge_overlap compared with MuxAggE/Overlap "
+                     "(AggregatedIsSum checked by TLC on the design). "),
+    "C05": container("Kind=hg and dir", "3 C05", "Every selection (all node subsets, size lists, (order|size, up_to, "
+                     "keep_isolated), largest component) is extracted after random prefixes and compared with Derive.tla; "
+                     "copies are mutated on both sides. "),
+    "C07": container("all four kinds", "3 C07", "SHA-256 is abstracted as an unknown function: TLC checks that all "
+                     "digests observed in a batch (hundreds of histories over 2-6 nodes, many reaching the same content "
+                     "through different insertion orders and insert/remove detours) are explained by an injective "
+                     "function of the abstract content. "),
+    "C08": container("Kind=hg for connectivity, all kinds for degrees", "3 C08", "All 128 hypergraphs on 3 nodes plus the "
+                     "replayed histories; every function of utils/cc.py and measures/degree.py (method and module level, "
+                     "order= and size= spellings) compared with Components/Degree of Derive.tla. "),
 }
 
 NOT_APPLICABLE = {
